@@ -244,7 +244,7 @@ def q_mult_R(q: np.ndarray) -> np.ndarray:
         Matrix form of the right side quaternion multiplication.
 
     """
-    q /= np.linalg.norm(q)
+    q = q / np.linalg.norm(q)
     Q = np.array([
         [q[0], -q[1], -q[2], -q[3]],
         [q[1],  q[0],  q[3], -q[2]],
